@@ -43,6 +43,14 @@ func c18HostPort(c *Ctx) {
 					arg := call.Call.Args[len(call.Call.Args)-1]
 					if fromBytesConv(arg, 0, map[ssa.Value]bool{}) {
 						decoders = append(decoders, f)
+					} else if k := paramIndex(f, arg); k >= 0 {
+						// a parsing helper: the text is its parameter; look at what its callers hand it
+						for _, e := range P.Callers(f) {
+							if e.Site != nil && k < len(e.Site.Common().Args) && fromBytesConv(e.Site.Common().Args[k], 0, map[ssa.Value]bool{}) {
+								decoders = append(decoders, f)
+								break
+							}
+						}
 					}
 				}
 			})
@@ -178,6 +186,23 @@ func assembledFromIP(v ssa.Value, isIPType func(types.Type) bool) ssa.Instructio
 		}
 		seen[v] = true
 		switch x := v.(type) {
+		case *ssa.Parameter:
+			// the string is handed in: look at what the (static) callers hand over
+			if curProgram != nil && x.Parent() != nil {
+				idx := -1
+				for i, q := range x.Parent().Params {
+					if q == x {
+						idx = i
+					}
+				}
+				for _, e := range curProgram.Callers(x.Parent()) {
+					if e.Site != nil && idx >= 0 && idx < len(e.Site.Common().Args) && e.Site.Common().StaticCallee() == x.Parent() {
+						if bad := walk(e.Site.Common().Args[idx], depth+1); bad != nil {
+							return bad
+						}
+					}
+				}
+			}
 		case *ssa.Phi:
 			for _, e := range x.Edges {
 				if bad := walk(e, depth+1); bad != nil {
@@ -219,6 +244,17 @@ func assembledFromIP(v ssa.Value, isIPType func(types.Type) bool) ssa.Instructio
 				for _, a := range x.Call.Args {
 					if hasIP(a, 0) {
 						return x
+					}
+				}
+			default:
+				// a formatting helper of the module: what it returns
+				if g := staticCallee(&x.Call); g != nil && InModule(g) && len(g.Blocks) > 0 {
+					for _, b := range g.Blocks {
+						if r, ok := b.Instrs[len(b.Instrs)-1].(*ssa.Return); ok && len(r.Results) > 0 {
+							if bad := walk(r.Results[0], depth+1); bad != nil {
+								return bad
+							}
+						}
 					}
 				}
 			}
